@@ -460,6 +460,12 @@ pub fn parse_dict(b: &[u8]) -> Option<Dict> {
     Some(d)
 }
 
+/// like parse_dict but tolerant of anything prost accepts: uses prost itself (the dictionary is only needed
+/// to locate the stored ranges for the oracle tables)
+pub fn parse_dict_lenient(b: &[u8]) -> Option<Dict> {
+    bitar::chunk_dictionary::ChunkDictionary::decode(b).ok().map(|d| Dict::from_prost(&d))
+}
+
 pub fn gen_compress_case(rng: &mut Rng, big: bool) -> CompressCase {
     let cfg = if big {
         crate::chunking::Cfg { algo: *rng.pick(&['R', 'B']), bits: 12, min: 1024, max: (1 << 20) + 17, win: 32 }
